@@ -149,7 +149,14 @@ where
 	let mut skipped = 0;
 
 	while let Some(frame_or_err) = limited_body.frame().await {
-		let frame = frame_or_err.map_err(HttpError::Stream)?;
+		// A body that exceeds the limit is too large whether or not a `Content-Length` header announced it.
+		let frame = frame_or_err.map_err(|e| {
+			if e.downcast_ref::<http_body_util::LengthLimitError>().is_some() {
+				HttpError::TooLarge
+			} else {
+				HttpError::Stream(e)
+			}
+		})?;
 		let Some(data) = frame.data_ref() else {
 			continue;
 		};
